@@ -23,7 +23,7 @@ func init() {
 				"element exactly when no value variable exists, and a two-variable range over an index-less ranger reaches a no-return error. (C05.pool) pooled rangers: Setup assigns every field, no " +
 				"use after cleanup, objects come from the pool, every pool has a reset discipline. (C05.rangers) each built-in Range advances its cursor exactly once on the non-end path and not at " +
 				"all on the end path, and reads the element before advancing. (C05.elseif) `else if` builds an else list holding exactly the nested if without consuming another {{end}}; range does " +
-				"not allow else-if. (C05.truth) every return of isTrue equals v.IsValid() && !v.IsZero() under the facts of its path, so the branch an if chain takes depends on nothing but `valid and not the zero value` (false, 0, \"\", nil).",
+				"not allow else-if. (C05.truth) every return of isTrue equals v.IsValid() && !v.IsZero() under the facts of its path, so the branch an if chain takes depends on nothing but `valid and not the zero value` (false, 0, \"\", nil). (C05.bind, continued) whether '.' is replaced depends on the number of loop variables only, never on what a variable is called; '.' and the loop variables receive the element unwrapped from its interface, and Runtime.resolve unwraps what it reads from the scope chain (shared with C06.same).",
 			NotDecided:  "ints(a,b) arithmetic, map iteration order, channel blocking, user-defined Rangers, reflect.Value.IsZero itself (trusted: zero value of the kind).",
 			Assumptions: []string{"a Ranger's Range() result is meaningful only until the next call (interface contract)"},
 			Trusted:     commonTrusted,
@@ -34,7 +34,7 @@ func init() {
 			{Name: "range calls Range twice per iteration (skips every other element)", File: "eval.go", Old: "\t\t\t\t\trangeReturn = st.executeList(node.List)\n\t\t\t\t\tindexValue, rangeValue, end = ranger.Range()\n", New: "\t\t\t\t\trangeReturn = st.executeList(node.List)\n\t\t\t\t\tindexValue, rangeValue, end = ranger.Range()\n\t\t\t\t\tif !end && !isTrue(rangeValue) {\n\t\t\t\t\t\tindexValue, rangeValue, end = ranger.Range()\n\t\t\t\t\t}\n", Rule: "C05.loop"},
 			{Name: "else list also runs after a non-empty range", File: "eval.go", Old: "\t\t\t} else if node.ElseList != nil {\n\t\t\t\trangeReturn = st.executeList(node.ElseList)\n\t\t\t}\n\t\t\tif rangeReturn.IsValid() {", New: "\t\t\t}\n\t\t\tif end && node.ElseList != nil {\n\t\t\t\trangeReturn = st.executeList(node.ElseList)\n\t\t\t}\n\t\t\tif rangeReturn.IsValid() {", Rule: "C05.loop"},
 			{Name: "body executed once more after the end", File: "eval.go", Old: "\t\t\tif !end {\n\t\t\t\tfor !end && !rangeReturn.IsValid() {", New: "\t\t\tif !end {\n\t\t\t\tfor ok := true; ok; ok = !end && !rangeReturn.IsValid() {", Rule: "C05.loop"},
-			{Name: "context set even when a value variable exists", File: "eval.go", Old: "\t\t\t\t\tif valVarSlot < 0 {\n\t\t\t\t\t\tst.context = rangeValue\n\t\t\t\t\t}", New: "\t\t\t\t\tif valVarSlot <= 0 {\n\t\t\t\t\t\tst.context = rangeValue\n\t\t\t\t\t}", Rule: "C05.bind"},
+			{Name: "context set even when a value variable exists", File: "eval.go", Old: "\t\t\t\t\tif valVarSlot < 0 {\n\t\t\t\t\t\tst.context = indirectEface(rangeValue)\n\t\t\t\t\t}", New: "\t\t\t\t\tif valVarSlot <= 0 {\n\t\t\t\t\t\tst.context = indirectEface(rangeValue)\n\t\t\t\t\t}", Rule: "C05.bind"},
 			{Name: "key variable receives the value", File: "eval.go", Old: "\t\t\t\t\t\t\t\tst.variables[node.Set.Left[keyVarSlot].String()] = indexValue", New: "\t\t\t\t\t\t\t\tst.variables[node.Set.Left[keyVarSlot].String()] = rangeValue", Rule: "C05.bind"},
 			{Name: "slice ranger advances before reading", File: "ranger.go", Old: "\tindex = reflect.ValueOf(r.i)\n\tvalue = r.v.Index(r.i)\n\tr.i++\n\treturn", New: "\tr.i++\n\tindex = reflect.ValueOf(r.i - 1)\n\tvalue = r.v.Index(r.i)\n\treturn", Rule: "C05.rangers"},
 			{Name: "map ranger forgets to advance", File: "ranger.go", Old: "\tkey, value = r.iter.Key(), r.iter.Value()\n\tr.hasMore = r.iter.Next()\n\treturn", New: "\tkey, value = r.iter.Key(), r.iter.Value()\n\tr.hasMore = r.hasMore && r.iter != nil\n\treturn", Rule: "C05.rangers"},
